@@ -277,6 +277,16 @@ pub fn leaves() -> Vec<(Scenario, bool)> {
     out
 }
 
+/// a losing branch exactly as deep as the default snapshot retention (5): the winner for the fork epoch arrives when
+/// the member is `depth` epochs further
+pub fn deep_fork(depth: usize) -> Scenario {
+    let mut node = rename("B", &format!("l{depth}"), 20 + 10 * depth as u64);
+    for k in (1..depth).rev() {
+        node = rename("B", &format!("l{k}"), 20 + 10 * k as u64).then(vec![node]);
+    }
+    base(&format!("deep-fork-{depth}"), &["A", "B", "Z"], &["A", "B"], &[], vec![rename("A", "winner", 10), node])
+}
+
 /// group sizes 2..6, one race
 pub fn sizes() -> Vec<(Scenario, bool)> {
     let mut out = Vec::new();
@@ -347,6 +357,15 @@ pub fn ratchet_window(n: usize, tolerance: u32, forward: u32) -> (Scenario, bool
     sc.cfg.out_of_order_tolerance = tolerance;
     sc.cfg.maximum_forward_distance = forward;
     (sc, true)
+}
+
+/// one sender, n messages in one epoch, a forward window much larger than the out-of-order tolerance: a receiver that
+/// gets a later message first must still accept it (judged per delivery; which of the skipped ones may be lost
+/// afterwards is the tolerance's business, so no end-state verdict is taken on these scenarios)
+pub fn fwd_jump(n: usize, tolerance: u32, forward: u32) -> (Scenario, bool) {
+    let (mut sc, _) = ratchet_window(n, tolerance, forward);
+    sc.name = format!("fwdjump-n{n}-t{tolerance}-f{forward}");
+    (sc, false)
 }
 
 pub fn c02_thorough() -> Vec<(Scenario, bool)> {
